@@ -211,6 +211,14 @@ func doOp(vm data.VM, o Op) (res Res) {
 				res.D = srcID(x.GetFrom())
 			}
 		}
+	case "alunreg":
+		if o.Val >= 0 && o.Val < len(callbacks) {
+			parser.RemoveAutoLoad(callbacks[o.Val])
+		}
+	case "alreg":
+		if o.Val >= 0 && o.Val < len(callbacks) {
+			parser.AddAutoLoad(callbacks[o.Val])
+		}
 	case "addns":
 		// parser.DefaultClassPathManager.AddNamespace concurrently with FindClassFile/LoadClass
 		if autoDir != "" {
@@ -286,13 +294,57 @@ type Config struct {
 	SharedTemp bool       `json:"sharedtemp"` // the Temps threads all run on ONE TempVM (coroutines spawned inside one request)
 	Repeat     int        `json:"repeat"`     // run the same programs on this many fresh VMs (race hunting)
 	KeepAll    bool       `json:"keepall"`    // return the results of every repetition
+	// Callbacks n: n spl-autoload callbacks are registered on the fresh VM (parser.AddAutoLoad): callback k < n-1
+	// defines only classes named Dyn<k>_* and declines everything else, the LAST one defines every Dyn* class.
+	// ops alunreg/alreg (val = k) unregister / register callback k while other goroutines look classes up.
+	Callbacks int `json:"callbacks"`
 }
+
+// alCallback: a Go-implemented spl autoload callback ($name) -> defines class $name (from file d<5000+k>.php) when it is
+// responsible for it, declines (null) otherwise
+type alCallback struct {
+	k    int
+	last bool
+}
+
+func (c *alCallback) GetName() string { return fmt.Sprintf("c10autoload%d", c.k) }
+func (c *alCallback) GetParams() []data.GetValue {
+	return []data.GetValue{node.NewParameter(nil, "name", 0, nil, nil)}
+}
+func (c *alCallback) GetVariables() []data.Variable {
+	return []data.Variable{node.NewVariable(nil, "name", 0, nil)}
+}
+func (c *alCallback) Call(ctx data.Context) (data.GetValue, data.Control) {
+	v, _ := ctx.GetIndexValue(0)
+	s, ok := v.(data.AsString)
+	if !ok {
+		return data.NewNullValue(), nil
+	}
+	name := s.AsString()
+	if !(c.last && strings.HasPrefix(name, "Dyn")) && !strings.HasPrefix(name, fmt.Sprintf("Dyn%d_", c.k)) {
+		return data.NewNullValue(), nil
+	}
+	file := fmt.Sprintf("d%d.php", 5000+c.k)
+	from := node.NewTokenFrom(&file, 0, 0, 0, 0)
+	if acl := ctx.GetVM().AddClass(node.NewClassStatement(from, name, "", nil, nil, map[string]data.Method{})); acl != nil {
+		return nil, acl
+	}
+	return data.NewBoolValue(true), nil
+}
+
+var callbacks []*data.FuncValue
 
 // a run in which no op completes for this long is a hang
 const hangAfter = 3 * time.Second
 
 func runOnce(cfg *Config) [][]Res {
-	vm := newVM()
+	vm := newVM() // NewVM resets the process-wide autoload callback list
+	callbacks = nil
+	for k := 0; k < cfg.Callbacks; k++ {
+		fv := data.NewFuncValue(&alCallback{k: k, last: k == cfg.Callbacks-1})
+		callbacks = append(callbacks, fv)
+		parser.AddAutoLoad(fv)
+	}
 	var shared data.VM
 	if cfg.SharedTemp {
 		shared = ort.NewTempVM(vm)
